@@ -118,6 +118,8 @@ def function_interpolate(function, x, eps = 1e-9, start_tens = None, nswp = 20, 
     if isinstance(x,list) or isinstance(x,tuple):
         eval_mv = True
         N = x[0].N
+        if any(xi.is_ttm or xi.N != N for xi in x):
+            raise torchtt.errors.ShapeMismatch('The argument tensors must be TT tensors of the same shape.')
     else:
         eval_mv = False
         N = x.N
